@@ -304,6 +304,31 @@ theorem verifyUncles_iff_with_exemptions_mainnet (sealBad : Header → Bool) (ch
       UnclesValidEx Spec.diffParams (cfgOf Aqv.Gen.Params.mainnet) sealBad chain block :=
   verifyUncles_iff_with_exemptions _ sealBad chain block (builtin_schedules_ordered _ (by decide)) hgas hu
 
+/-- **the uncle limit depends on the block's own number only**: a block with more uncles than `uncleLimit cfg block.number`
+    (2; 1 from HF5 — generated `maxUncles`, `maxUnclesHF5`) is refused with `too-many-uncles` whatever the chain reader holds —
+    stored ancestors, local head, clock play no part; and two blocks with the same number and uncle count get the same count verdict. -/
+theorem uncle_limit_depends_on_block_number_only (cfg : Config) (now : Nat) (sealBad : Header → Bool) (chain : Chain) (block : Block)
+    (h : uncleLimit cfg block.header.number < block.uncles.length) :
+    verifyUncles (genEnv cfg now sealBad) chain block = some .tooManyUncles := by
+  unfold verifyUncles genEnv
+  simp only [gen_constants_are_the_statements.2, Spec.vParams]
+  unfold uncleLimit at h
+  by_cases h5 : cfg.isHF 5 block.header.number = true
+  · simp only [h5, if_true] at h
+    by_cases h2 : block.uncles.length > 2
+    · simp [h2]
+    · have : block.uncles.length > 1 := h
+      simp [h2, this, h5]
+  · simp only [h5, if_false] at h
+    have : block.uncles.length > 2 := h
+    simp [this]
+
+/-- the head-number variant is a different rule: on the test schedule (HF5 at 5) a block #4 may carry two uncles while a node whose
+    local head is at #9 would, keyed by the head, allow only one — and a block #9 with two uncles would pass on a node whose head is at #3. -/
+theorem uncle_limit_head_variant_witness :
+    uncleLimit { chainId := 3, forks := Spec.testForks } 4 = 2 ∧ uncleLimit { chainId := 3, forks := Spec.testForks } 9 = 1 ∧
+    uncleLimit { chainId := 3, forks := Spec.testForks } 3 = 2 := by decide
+
 /-- from height 15009 on the historic exemptions are out of reach, whatever the chain reader returns. -/
 theorem uncle_window_high_blocks (chain : Chain) (block : Block) (h1 : 15009 ≤ block.header.number) (h2 : block.header.number < two64) :
     15000 < (gatherFamily chain 7 block.header.parentHash (subU64 block.header.number 1) { ancestors := [], pastUncles := [], number := 0 }).number := by
@@ -513,6 +538,9 @@ example :
     verifyUncles (genEnv (cfgOf Aqv.Gen.Params.mainnet) 0 (fun _ => false)) chain block = none ∧
     verifyUncles (genEnv (cfgOf Aqv.Gen.Params.mainnet) 0 (fun _ => false)) chain { block with uncles := [{ fake with number := 14002 }] } = some .danglingUncle := by
   decide
+
+-- `uncle_limit_depends_on_block_number_only`: block 20000 (HF5 active) with two uncles exceeds the limit, on any chain
+example : uncleLimit exCfg exBlock.header.number < ({ exBlock with uncles := [exUncle, exUncle] } : Block).uncles.length := by decide
 
 -- `coordinator_complete`: a permutation of 0..3
 example : coordinator (fun i => i * 10) 4 [2, 0, 3, 1] = [0, 10, 20, 30] := by decide
